@@ -550,3 +550,18 @@ package catalog
 //@   ensures [C19] ret1 == nil && ownTags(d) == nil && urlTags(d) != nil ==> len(ret0) == len(urlTags(d).unnamedParameters)
 //@        && (forall k :: 0 <= k && k < len(ret0) ==> ret0[k] == old(c.Tags.data[urlTags(d).unnamedParameters[k]]))
 //@   ensures [C19] ret1 == nil && ownTags(d) == nil && urlTags(d) == nil ==> len(ret0) == 1 && has(c.Tags.data, ret0[0].Name) && c.Tags.data[ret0[0].Name] == ret0[0]
+
+// ---------------------------------------------------------------- duplicate user enum / user type (C11)
+//@ func (*Catalog).AddEnum
+//@   tag C11 C01
+//@   requires c != nil && DirWF(d) && !isnil(d.includeTracer) && c.UserEnums != nil && RepInvUserRules(c.UserEnums) && c.UserEnums.mx == 0
+//@   ensures [C11] old(has(c.UserEnums.data, (has(d.namedParameters, "Name") ? d.namedParameters["Name"] : ""))) ==> ret != nil && ret.index == d.keywordCoords.begin && unchanged()
+//@   unclaimed #requires@enumDirectiveToUserRule the conversion of the enum values is not under contract
+//@   unclaimed #nil-deref@err the schema library's error values are not modelled
+
+//@ func (*Catalog).AddType
+//@   tag C11 C01
+//@   requires c != nil && DirWFv(d) && c.UserTypes != nil && RepInvUserTypes(c.UserTypes) && c.UserTypes.mx == 0
+//@   ensures [C11] old(has(c.UserTypes.data, (has(d.namedParameters, "Name") ? d.namedParameters["Name"] : ""))) ==> ret != nil && ret.index == d.keywordCoords.begin && unchanged()
+//@   unclaimed #requires@Read the body coordinates of a user type are not constrained here (C14 owns the lexeme bounds)
+//@   unclaimed #requires@Set the schema compilation between the duplicate check and the insertion has no frame contract
